@@ -35,7 +35,16 @@ def observer(got, pred, sp, call, sg, prog, ctx, part):
         bump(part, 'cases_without_regular_point_for_derivative')
     vm = ctx.varmap
     param_step(got, den, sp, own_names, vm, ctx, part, bad)
-    for V in vlists(sp, own_names, ctx):
+    lists = vlists(sp, own_names, ctx)
+    foreign = [interp.name_of(n) for n in sorted(ctx.all_names) if interp.name_of(n) not in own_names][:1]
+    if foreign and len(own_names) == 3:
+        # supersets whose first and last own variable are exactly len - 1 apart while the interior is permuted or foreign
+        a, b, c = own_names
+        f = foreign[0]
+        for extra in ([a, f, c, b], [c, b, f, a], [a, c, b, f], [f, b, a, c]):
+            if extra not in lists:
+                lists.append(extra)
+    for V in lists:
         vars_ = [vm[n] for n in V]
         n = len(V)
         try:
